@@ -237,3 +237,45 @@ MA('C10', 'ProximalL2Squared aliased arm writes out first', PROX,
    'proximal_l2_squared.ProximalL2Squared._call',
    'if x is out:...', 'sig.multiply(2 * lam * g, out=out)\nout.lincomb(1, x, 1, out)',
    'ProximalL2Squared._call')
+
+# ---- C04 -------------------------------------------------------------------
+FUNF = 'odl/solvers/functional/functional.py'
+MA('C04', 'left scalar merging adds', OPR, 'OperatorLeftScalarMult.__init__',
+   'scalar = scalar * operator.scalar', 'scalar = scalar + operator.scalar',
+   'OperatorLeftScalarMult.__init__')
+MA('C04', 'truediv scales the result', OPR, 'Operator.__truediv__',
+   'return self * (1.0 / other)', 'return 1.0 / other * self',
+   'Operator.__truediv__')
+MA('C04', 'composition linear flag with or', OPR, 'OperatorComp.__init__',
+   'super(OperatorComp, self).__init__(...',
+   'super(OperatorComp, self).__init__(right.domain, left.range, '
+   'linear=left.is_linear or right.is_linear)', 'C04-R2')
+MA('C04', 'rsub order', OPR, 'Operator.__rsub__', 'return -1 * self + other',
+   'return self + -1 * other', 'Operator.__rsub__')
+MA('C04', 'RightScalarMult.__mul__ regression', OPR,
+   'OperatorRightScalarMult.__mul__',
+   'return super(OperatorRightScalarMult, self).__mul__(other)',
+   'return super(OperatorRightScalarMult, self).__rmul__(other)',
+   'OperatorRightScalarMult.__mul__')
+MA('C04', 'mul with scalar of nonlinear operator scales result', OPR,
+   'Operator.__mul__', 'return OperatorRightScalarMult(self, other)',
+   'return OperatorLeftScalarMult(self, other)', 'Operator.__mul__')
+MA('C04', 'pow composes one time too many', OPR, 'Operator.__pow__',
+   'while n > 1:...', 'while n > 0:\n    op = OperatorComp(self, op)\n    n -= 1',
+   'Operator.__pow__')
+MA('C04', 'OperatorLeftScalarMult in-place arm adds', OPR,
+   'OperatorLeftScalarMult._call', 'out *= self.scalar',
+   'out += self.scalar', 'C04-R3')
+MA('C04', 'OperatorRightVectorMult forgets the vector', OPR,
+   'OperatorRightVectorMult._call', 'return self.operator(x * self.vector)',
+   'return self.operator(x)', 'Operator.__mul__')
+MA('C04', 'Functional times zero scalar', FUNF, 'Functional.__mul__',
+   'return ConstantFunctional(self.domain, self(self.domain.zero()))',
+   'return ConstantFunctional(self.domain, 0)', 'Functional.__mul__')
+MA('C04', 'Functional right scalar mult for linear shortcut swapped', FUNF,
+   'Functional.__mul__', 'if self.is_linear:...',
+   'elif not self.is_linear:\n    return FunctionalLeftScalarMult(self, other)\n'
+   'else:\n    return FunctionalRightScalarMult(self, other)',
+   'Functional.__mul__')
+MA('C04', 'OperatorVectorSum subtracts', OPR, 'OperatorVectorSum._call',
+   'out += self.vector', 'out -= self.vector', 'Operator.__add__')
